@@ -310,7 +310,7 @@ def gen_c14_session(seed: int, index: int, ctx: GenCtx, faulty: bool, max_ops: i
         s1 = _s1(rng, policy)
         op = None
         if kind == "single":
-            op = b.single(cid, s1, keep=rng.random() < 0.6)
+            op = b.single(cid, s1, keep=rng.random() < (0.85 if faulty else 0.6))
         elif kind == "rerun":
             op = b.rerun(s1)
         elif kind == "cli":
@@ -343,6 +343,11 @@ def gen_c14_session(seed: int, index: int, ctx: GenCtx, faulty: bool, max_ops: i
             if f is not None:
                 op["fault"] = f
                 # a probe on state the faulted operation touched follows within two operations
+                if op["op"] in ("single", "rerun") and op.get("h") and rng.random() < 0.7:
+                    # the aborted run and the next one on the very same Tealer object (a notebook
+                    # cell interrupted and re-executed): other detectors, same contexts
+                    dets = _det_subset(rng, ctx.detectors)
+                    b.add({"op": "rerun", "h": op["h"], "dets": dets, "runs": _runs(rng, dets), "s1": _s1(rng, policy)})
                 if rng.random() < 0.8:
                     probe = b.single(ccid if ccid in ctx.info else cid, _s1(rng, policy), keep=False)
                     if rng.random() < 0.4:
